@@ -6,7 +6,7 @@ from ..layouts import zoo, contiguous, lay1
 from ..nd import prod, lane_positions, result_shape
 from ..plans import sum_plan, plan_term, std_plan
 from ..pyfloat import FP, finite
-from .numcommon import mk_num_case, parse_num, model_ints, float_pool, fval
+from .numcommon import mk_num_case, parse_num, model_ints, float_pool, fval, mk_alias_case, alias_pairs
 
 FLOATS = ("f64", "f32")
 INTS = ("i32", "i64", "u64", "usize")
@@ -80,6 +80,31 @@ class C06(Prop):
                     lw = lay1(N, rng.choice([1, 2, -1]), rng.below(2), 0)
                     yield mk_num_case("weighted_sum_axis", et, [(shape, data, la), ([N], w1, lw)], "%d" % axis, axis=axis)
                     yield mk_num_case("weighted_mean_axis", et, [(shape, data, la), ([N], w1, lw)], "%d" % axis, axis=axis)
+
+        # geometric (and harmonic) mean where the product (the sum of reciprocals) of the data is not
+        # representable although the mean is: many small factors, few huge ones
+        for rep in range(4 if tier == "quick" else 100):
+            for et in FLOATS:
+                fp = FP(et)
+                hi, lo = (1e200, 1e-200) if et == "f64" else (1e30, 1e-30)
+                n = rng.range(2, 6)
+                for data in ([fp.r(hi * rng.range(1, 9)) for _ in range(n)], [fp.r(lo * rng.range(1, 9)) for _ in range(n)],
+                             [fp.r(rng.range(1, 9) / 64.0) for _ in range(rng.range(300, 400) if et == "f64" else rng.range(40, 60))]):
+                    la = rng.choice(zoo([len(data)], rng, 2))
+                    yield mk_num_case("geometric_mean", et, [([len(data)], data, la)])
+                    yield mk_num_case("harmonic_mean", et, [([len(data)], data, la)])
+
+        # data and weights as two views into ONE allocation
+        for rep in range(6 if tier == "quick" else 200):
+            for et in FLOATS + INTS:
+                nd = rng.range(1, 2)
+                side = rng.range(2, 4)
+                shape = [side] * nd
+                for (la, lb) in alias_pairs(shape, rng)[:3]:
+                    m = la.parent_len()
+                    pbuf = float_pool(5, m, rng, et) if et in FLOATS else [rng.range(1, 9) for _ in range(m)]
+                    yield mk_alias_case("weighted_sum", et, pbuf, la, lb)
+                    yield mk_alias_case("weighted_mean", et, pbuf, la, lb)
 
     def parse(self, case):
         parse_num(case)
@@ -170,7 +195,21 @@ class C06(Prop):
             s = sum(1 / v for v in X)
             exact, mag = n / s, n / s
         else:
-            return []  # geometric mean: transcendental; covered by the bit-exact comparison
+            # geometric mean of positive data: exp(mean ln x) in double precision; a relative error of
+            # (n + 16) * 8u * (1 + mean |ln x|) covers the rounding of the log-sum and of exp
+            import math
+            if any(v <= 0 or v != v or v in (float("inf"),) for v in x):
+                return []
+            lns = [math.log(v) for v in x]
+            ml = math.fsum(lns) / n
+            top = 88.0 if et == "f32" else 709.0
+            if not (-top + 2 < ml < top - 2):
+                return []
+            want = math.exp(ml)
+            rel = (n + 16) * 8 * float(fp.u) * (1 + math.fsum(abs(t) for t in lns) / n)
+            if not finite(g) or abs(g - want) > rel * want:
+                return ["value: geometric_mean = %r, exp(mean ln x) = %r" % (g, want)]
+            return []
         if not finite(g):
             return [] if abs(exact) > Fraction(2) ** (120 if et == "f32" else 1000) else ["value: %s returned a non-finite value" % r]
         tiny = Fraction(1, 2 ** (140 if et == "f32" else 1060))
